@@ -7,6 +7,8 @@ import (
 	"os"
 	"os/exec"
 	"path/filepath"
+	"regexp"
+	"strconv"
 	"strings"
 	"sync"
 	"time"
@@ -20,7 +22,8 @@ type solverSpec struct {
 var solvers = []solverSpec{
 	{"z3-new 5.1.0", func(f string, ms int) []string { return []string{"z3-new", fmt.Sprintf("-t:%d", ms), f} }},
 	{"cvc5 1.0", func(f string, ms int) []string {
-		return []string{"cvc5", fmt.Sprintf("--tlimit=%d", ms), "--produce-models", f}
+		// --strings-exp: extended string functions (str.contains, str.to_code) in the native-string lemmas
+		return []string{"cvc5", fmt.Sprintf("--tlimit=%d", ms), "--produce-models", "--strings-exp", f}
 	}},
 	{"z3 4.8.12", func(f string, ms int) []string { return []string{"z3", fmt.Sprintf("-t:%d", ms), f} }},
 }
@@ -45,7 +48,59 @@ func (o *Obl) query(withModel bool) string {
 	if withModel {
 		sb.WriteString("(get-model)\n")
 	}
+	if g.nativeStr {
+		return nativeStrings(sb.String())
+	}
 	return sb.String()
+}
+
+var litDeclRe = regexp.MustCompile(`^\(declare-const (lit\.\d+) Str\) ; (".*")$`)
+
+// nativeStrings rewrites a query so that the sort Str is the SMT-LIB theory of strings: length, character access,
+// concatenation, containment, substring and literals get their meaning instead of being uninterpreted.  Only for
+// lemmas over spec functions (strings=native): the solvers' string procedures do not mix well with the quantified
+// heap axioms of function obligations.  Go strings are byte sequences, SMT-LIB strings are code-point sequences; the
+// lemmas this is used for (key injectivity) do not depend on the difference.
+func nativeStrings(q string) string {
+	var out []string
+	for _, line := range strings.Split(q, "\n") {
+		switch {
+		case strings.HasPrefix(line, "(declare-sort Str 0)"):
+			line = strings.Replace(line, "(declare-sort Str 0)", "(define-sort Str () String)", 1)
+		case strings.HasPrefix(line, "(declare-fun s.len (Str)"):
+			// the prelude line declares s.len and s.at together
+			line = "(define-fun s.len ((s Str)) Int (str.len s))\n(define-fun s.at ((s Str) (i Int)) Int (str.to_code (str.at s i)))"
+		case strings.HasPrefix(line, "(declare-fun s.at (Str"):
+			continue
+		case strings.HasPrefix(line, "(declare-fun s.concat (Str Str) Str)"):
+			line = "(define-fun s.concat ((a Str) (b Str)) Str (str.++ a b))"
+		case strings.HasPrefix(line, "(declare-fun s.contains (Str Str) Bool)"):
+			line = "(define-fun s.contains ((a Str) (b Str)) Bool (str.contains a b))"
+		case strings.HasPrefix(line, "(declare-fun s.less (Str Str) Bool)"):
+			line = "(define-fun s.less ((a Str) (b Str)) Bool (str.< a b))"
+		case strings.HasPrefix(line, "(declare-fun s.sub (Str Int Int) Str)"):
+			line = "(define-fun s.sub ((s Str) (a Int) (b Int)) Str (str.substr s a (- b a)))"
+		default:
+			if m := litDeclRe.FindStringSubmatch(line); m != nil {
+				if s, err := strconv.Unquote(m[2]); err == nil {
+					var sb strings.Builder
+					for _, c := range []byte(s) {
+						switch {
+						case c == '"':
+							sb.WriteString(`""`)
+						case c >= 0x20 && c < 0x7f && c != '\\':
+							sb.WriteByte(c)
+						default:
+							fmt.Fprintf(&sb, `\u{%x}`, c)
+						}
+					}
+					line = fmt.Sprintf("(define-fun %s () Str \"%s\")", m[1], sb.String())
+				}
+			}
+		}
+		out = append(out, line)
+	}
+	return strings.Join(out, "\n")
 }
 
 type solveResult struct {
